@@ -102,7 +102,16 @@ for cdir, pkg, groups in curves:
             fromEl = "func(v ofield.El) (e curve.VerifG2Coord) { e.B0.A0.SetBigInt(v[0]); e.B0.A1.SetBigInt(v[1]); e.B1.A0.SetBigInt(v[2]); e.B1.A1.SetBigInt(v[3]); return }"
         A, J, X = "curve.%sAffine" % G, "curve.%sJac" % G, "curve.Verif%sJacExtended" % G
         ops = []
+        RETURNS_RECEIVER = {"Add", "Sub", "Double", "Neg", "AddAssign", "SubAssign", "AddMixed", "DoubleAssign", "DoubleMixed",
+                            "FromAffine", "FromJacobian", "Set", "ScalarMultiplication", "ScalarMultiplicationBase"}
         def op(name, sem, ins, out, nsc, body):
+            # methods return their receiver (so that calls can be chained): check it where the call is "<recv>.<M>(...)"
+            # directly followed by "return rep..(&<recv>)"
+            m = re.search(r"(\w+)\.(\w+)\((.*)\); return (rep\w+)\(&(\w+)\)$", body)
+            if m and m.group(1) == m.group(5) and m.group(2) in RETURNS_RECEIVER:
+                call = "%s.%s(%s)" % (m.group(1), m.group(2), m.group(3))
+                body = body[:m.start()] + "if ret := %s; ret != &%s {\n\t\t\t\treturn Rep{Sys: \"note\", Note: \"%s returned a pointer that is not its receiver: chained calls act on another object\"}\n\t\t\t}\n\t\t\treturn %s(&%s)" % (
+                    call, m.group(1), m.group(2), m.group(4), m.group(5))
             ops.append('\t\t{Name: "%s", Sem: "%s", In: []string{%s}, Out: "%s", NScalars: %d, F: func(in []Rep, sc []*big.Int) Rep {\n%s\n\t\t}},' % (
                 name, sem, ", ".join('"%s"' % i for i in ins), out, nsc, body))
         # affine ops
